@@ -268,6 +268,13 @@ func (w *world) opFree(i int, disciplined bool) {
 
 func (w *world) opCloseTopic() {
 	done := make(chan struct{})
+	// like a real module, the subscriber keeps draining its Recv channel while it closes: client.Close waits for
+	// the forwarding goroutine, which blocks on `client.Recv() <- data` once the 5-slot buffer is full (a module
+	// that stops reading before it calls Close would hang there — outside C36's send/wait clauses, noted in level_note)
+	go func() {
+		for range w.sub.Recv() {
+		}
+	}()
 	go func() { w.sub.Close(); close(done) }()
 	res := "ok"
 	select {
